@@ -804,7 +804,7 @@ impl driver_context_t<u16> for LigatureCtx<'_> {
             let mut cursor = self.match_length;
 
             let mut ligature_actions_index = entry.extra;
-            let mut ligature_idx = 0;
+            let mut ligature_idx: u32 = 0;
             loop {
                 if cursor == 0 {
                     // Stack underflow. Clear the stack.
@@ -834,12 +834,12 @@ impl driver_context_t<u16> for LigatureCtx<'_> {
                 let offset = uoffset as i32;
                 let component_idx = (buffer.cur(0).glyph_id as i32 + offset) as u32;
                 ligature_idx += match self.table.components.get(component_idx) {
-                    Some(v) => v,
+                    Some(v) => u32::from(v),
                     None => break,
                 };
 
                 if (action & (Self::LIG_ACTION_STORE | Self::LIG_ACTION_LAST)) != 0 {
-                    let lig = match self.table.ligatures.get(u32::from(ligature_idx)) {
+                    let lig = match self.table.ligatures.get(ligature_idx) {
                         Some(v) => v,
                         None => break,
                     };
